@@ -5,6 +5,7 @@ definitions with the names their fields mention, noise)."""
 import copy
 import json
 import random
+import re
 
 from tools import projgen
 from tools.projgen import P, Tup, CONTEXTS
@@ -74,20 +75,66 @@ def is_serde(it):
     return any("Serialize" in d or "Deserialize" in d for d in it.get("derives", []))
 
 
+TYPE_SET_NAMES = {"HashMap", "BTreeMap", "HashSet", "BTreeSet"}
+
+
+def type_name_of(t):
+    """EventParser::extract_type_name: references stripped, last path segment, otherwise unknown"""
+    while t["k"] == "ref":
+        t = t["t"]
+    if t["k"] == "path":
+        return t["name"]
+    return "unknown"
+
+
+def text_type_name(txt):
+    txt = txt.strip()
+    while txt.startswith("&"):
+        txt = txt[1:].strip()
+    if txt.startswith("mut "):
+        txt = txt[4:].strip()
+    if not re.match(r"^[\w:]+(<.*>)?$", txt):
+        return "unknown"
+    return txt.split("<")[0].split("::")[-1]
+
+
 def fn_events(it):
+    """Events of one function as the *unchanged* event parser sees them: a fresh symbol table per
+    function (parameters, then let bindings in statement order: `let v: T = ..` gives T,
+    `let v = T::f(..)` gives T, `let v = w` / `&w` copies w's entry, anything else binds nothing);
+    a payload variable without an entry falls back to its own name."""
     evs = []
-    ptypes = {p["name"]: p["ty"] for p in it.get("params", [])}
+    sym = {p["name"]: type_name_of(p["ty"]) for p in it.get("params", [])}
     for s in it.get("body", []):
-        if isinstance(s, dict):
-            pay = s.get("payload", "()")
-            roots = []
-            if pay in ptypes:
-                t = ptypes[pay]
-                while t["k"] == "ref":
-                    t = t["t"]
-                if t["k"] == "path" and not t["args"] and t["name"] not in BUILTIN and t["name"][:1].isupper():
-                    roots = [t["name"]]
-            evs.append((s["emit"], roots))
+        if isinstance(s, str):
+            m = re.match(r"^let (?:mut )?(\w+): (.+?) = .*;$", s.strip())
+            if m:
+                sym[m.group(1)] = text_type_name(m.group(2))
+                continue
+            m = re.match(r"^let (?:mut )?(\w+) = (.+);$", s.strip())
+            if m:
+                var, init = m.group(1), m.group(2).strip()
+                while init.startswith("&"):
+                    init = init[1:].strip()
+                ty = "unknown"
+                if re.fullmatch(r"\w+", init):
+                    ty = sym.get(init, "unknown")
+                elif re.match(r"^(\w+)(::\w+)+\(", init):
+                    ty = init.split("::")[0]
+                if ty != "unknown":
+                    sym[var] = ty
+            continue
+        pay = s.get("payload", "()").strip()
+        while pay.startswith("&"):
+            pay = pay[1:].strip()
+        if pay.endswith(".clone()"):
+            pay = pay[:-len(".clone()")]
+        roots = []
+        if re.fullmatch(r"\w+", pay) and not pay[0].isdigit():
+            ty = sym.get(pay, pay)
+            if ty[:1].isupper() and ty not in BUILTIN and ty not in TYPE_SET_NAMES:
+                roots = [ty]
+        evs.append((s["emit"], roots))
     return evs
 
 
@@ -167,6 +214,52 @@ class Skeleton:
 
 # ----------------------------------------------------------------------------- generator
 
+VAR_POOL = ["payload", "data", "progress", "snapshot", "info"]
+
+
+def bind_payload(rng, params, body, var, tname):
+    """Bind identifier `var` in one of the ways the event parser distinguishes (typed parameter,
+    reference parameter, typed let, let from Type::f(), let copied from a parameter, untyped let from a
+    call or a macro) and return the payload expression of the emit call."""
+    kind = rng.choice(["param", "param", "ref_param", "typed_let", "default_let", "copy_let", "call_let", "call_let", "macro_let"])
+    if kind == "param":
+        params.append({"name": var, "ty": P(tname)})
+    elif kind == "ref_param":
+        params.append({"name": var, "ty": projgen.Ref(P(tname))})
+    elif kind == "typed_let":
+        body.append("let %s: %s = todo!();" % (var, tname))
+    elif kind == "default_let":
+        body.append("let %s = %s::default();" % (var, tname))
+    elif kind == "copy_let":
+        params.append({"name": "source_" + var, "ty": P(tname)})
+        body.append("let %s = %ssource_%s;" % (var, rng.choice(["", "&"]), var))
+    elif kind == "call_let":
+        body.append("let %s = build_%s(%d);" % (var, var, rng.randint(0, 9)))
+    else:
+        body.append('let %s = format!("{}-{}", 1, 2);' % var)
+    return rng.choice([var, var, "&" + var, var + ".clone()"])
+
+
+def helper_text(rng, fname, vars_, type_names):
+    """A non-command function that emits nothing; parameters and lets reuse the given identifiers
+    and type names."""
+    vs = rng.sample(list(dict.fromkeys(vars_)), min(len(set(vars_)), rng.randint(1, 3)))
+    params, lets = [], []
+    for v in vs:
+        t = rng.choice(list(type_names))
+        k = rng.choice(["param", "ref_param", "typed_let", "default_let"])
+        if k == "param":
+            params.append("%s: %s" % (v, t))
+        elif k == "ref_param":
+            params.append("%s: &%s" % (v, t))
+        elif k == "typed_let":
+            lets.append("    let %s: %s = todo!();" % (v, t))
+        else:
+            lets.append("    let %s = %s::default();" % (v, t))
+    lines = ["fn %s(%s) -> usize {" % (fname, ", ".join(params))] + lets
+    lines += ["    let _ = (%s);" % ", ".join("&" + v for v in vs) if len(vs) > 1 else "    let _ = &%s;" % vs[0], "    0", "}"]
+    return "\n".join(lines)
+
 def struct_item(rng, name, edges_to, derives=None, marker=None):
     fields = []
     fnames = rng.sample(FIELDS, min(len(FIELDS), len(edges_to) + rng.randint(1, 2)))
@@ -235,6 +328,8 @@ def gen_project(rng, shape=None):
     cmd_files = [files[0]] if shape == "cmd1" else files
     evnames = rng.sample(EVENT_POOL, len(EVENT_POOL))
     roots_pool = [0] if chain else list(range(ntypes))
+    # a few identifiers per file, reused by the functions of that file with different bindings
+    file_vars = {f: rng.sample(VAR_POOL, 2) for f in files}
     for c in cmds:
         f = rng.choice(cmd_files)
         params, ret, body = [], None, []
@@ -256,9 +351,9 @@ def gen_project(rng, shape=None):
         if rng.random() < 0.3 and evnames:
             if not any(p["name"] == "app" for p in params):
                 params.insert(0, {"name": "app", "ty": P("AppHandle", segs=["tauri"])})
-            if rng.random() < 0.7:
-                params.append({"name": "evt_payload", "ty": P(names[rng.choice(roots_pool)])})
-                body.append({"emit": evnames.pop(), "recv": "app", "payload": "evt_payload"})
+            if rng.random() < 0.8:
+                pay = bind_payload(rng, params, body, rng.choice(file_vars[f]), names[rng.choice(roots_pool)])
+                body.append({"emit": evnames.pop(), "recv": "app", "payload": pay})
             else:
                 body.append({"emit": evnames.pop(), "recv": "app", "payload": "()"})
         items[f].append({"kind": "fn", "name": c, "attrs": [rng.choice([["tauri", "command"], ["command"]])],
@@ -269,10 +364,12 @@ def gen_project(rng, shape=None):
             break
         f = rng.choice(cmd_files)
         j = rng.randrange(ntypes)
-        items[f].append({"kind": "fn", "name": "notify_%s" % evnames[-1].replace("-", "_").replace(":", "_").replace("/", "_"),
-                         "attrs": [], "async": False, "vis": "pub",
-                         "params": [{"name": "app", "ty": P("AppHandle", segs=["tauri"])}, {"name": "data", "ty": P(names[j])}],
-                         "ret": None, "body": [{"emit": evnames.pop(), "recv": "app", "payload": "data"}]})
+        params, body = [{"name": "app", "ty": P("AppHandle", segs=["tauri"])}], []
+        pay = bind_payload(rng, params, body, rng.choice(file_vars[f]), names[j])
+        fname = "notify_%s" % evnames[-1].replace("-", "_").replace(":", "_").replace("/", "_")
+        body.append({"emit": evnames.pop(), "recv": "app", "payload": pay})
+        items[f].append({"kind": "fn", "name": fname, "attrs": [], "async": False, "vis": "pub",
+                         "params": params, "ret": None, "body": body})
     # decoys
     for n in rng.sample(["Hidden", "Internal", "Scratch", "PlainData"], rng.randint(0, 2)):
         f = rng.choice(files)
@@ -280,6 +377,11 @@ def gen_project(rng, shape=None):
                          "serde": [], "fields": [{"name": "v", "ty": P("i32"), "serde": [], "validate": []}]})
     if rng.random() < 0.5:
         items[rng.choice(files)].append({"kind": "raw", "text": "fn helper_fn(x: i32) -> i32 { x + 1 }"})
+    # helper functions that emit nothing but bind the same identifiers (part of the project itself, so
+    # that reordering / moving functions changes what precedes an emitting function)
+    for k in range(rng.randint(0, 2)):
+        f = rng.choice(cmd_files)
+        items[f].append({"kind": "raw", "text": helper_text(rng, "prepare_%d" % k, file_vars[f] + ["evt_payload"], names)})
     for f in files:
         rng.shuffle(items[f])
     case = {"files": items, "config": {}}
@@ -328,6 +430,33 @@ def t_noise(rng, case):
     for txt in pool:
         f = rng.choice(sorted(c["files"]))
         c["files"][f].insert(rng.randint(0, len(c["files"][f])), {"kind": "raw", "text": txt})
+    # helper functions and non-serde decoys that share identifiers with the real items: variable names of
+    # the real functions, real (serde) type names and a non-serde decoy type, real function names as prefix
+    fns = [(f, i, it) for f in sorted(c["files"]) for i, it in enumerate(c["files"][f]) if it["kind"] == "fn"]
+    tnames = sorted({it["name"] for its in c["files"].values() for it in its if it["kind"] in ("struct", "enum")}) or ["String"]
+    decoy = "AuditRecord%d" % rng.randint(0, 9)
+    vars_all = sorted({p["name"] for _, _, it in fns for p in it.get("params", []) if p["name"] != "app"} |
+                      {m.group(1) for _, _, it in fns for st in it.get("body", []) if isinstance(st, str)
+                       for m in [re.match(r"^let (?:mut )?(\w+)", st)] if m}) or list(VAR_POOL)
+    emitting = sorted({f for f, _, it in fns if any(isinstance(st, dict) for st in it.get("body", []))})
+    k = 0
+    for f in sorted(c["files"]):
+        where = []
+        if f in emitting:
+            where = [w for w in ("before", "between", "after") if rng.random() < 0.6]
+        elif rng.random() < 0.2:
+            where = ["between"]
+        for w in where:
+            prefix = rng.choice([it["name"] for _, _, it in fns] or ["helper"])
+            txt = helper_text(rng, "%s_helper_%d" % (prefix, k), vars_all, tnames + [decoy, decoy])
+            k += 1
+            n = len(c["files"][f])
+            pos = 0 if w == "before" else n if w == "after" else rng.randint(0, n)
+            c["files"][f].insert(pos, {"kind": "raw", "text": txt})
+    if k:
+        f = rng.choice(sorted(c["files"]))
+        c["files"][f].insert(rng.randint(0, len(c["files"][f])),
+                             {"kind": "raw", "text": "#[derive(Debug, Clone, Default)]\npub struct %s {\n    pub line: String,\n}" % decoy})
     if rng.random() < 0.4:
         c["files"]["src/only_noise_%d.rs" % rng.randint(0, 99)] = [{"kind": "raw", "text": "// nothing but a comment\nfn unused() {}"}]
     return c
@@ -350,7 +479,8 @@ def t_move(rng, case):
         src = rng.choice(fs)
         if not c["files"][src]:
             continue
-        it = c["files"][src].pop(rng.randrange(len(c["files"][src])))
+        em = [i for i, x in enumerate(c["files"][src]) if x["kind"] == "fn" and any(isinstance(st, dict) for st in x.get("body", []))]
+        it = c["files"][src].pop(rng.choice(em) if em and rng.random() < 0.6 else rng.randrange(len(c["files"][src])))
         dst = rng.choice([f for f in fs if f != src])
         c["files"][dst].insert(rng.randint(0, len(c["files"][dst])), it)
     return c
